@@ -442,17 +442,17 @@ inductive Op where
   | start
   | commit
   | rollback
-  | snap (x y : UInt8)
+  | snap (x y : UInt8) (sep : Bool)
   | const
   | bad
 deriving DecidableEq
 
 /-- reads of `snap` over the probe universe of the two symbols `x`, `y` -/
-def snapReads (x y : UInt8) : List Op :=
+def snapReads (x y : UInt8) (sep : Bool) : List Op :=
   let px := childPrefix ++ [x]
   let py := childPrefix ++ [y]
   let mainKeys : List Bytes := [[], [x], [x, y], [y], [y, x], px, py]
-  let kids : List Bytes := [[x], [x, y], [y]]
+  let kids : List Bytes := if sep then [[0x4b, x], [0x4b, x, y], [0x4b, y]] else [[x], [x, y], [y]]
   let inKeys : List Bytes := [[], [x], [x, y], [y]]
   mainKeys.flatMap (fun k => [Op.get k, Op.next k]) ++ [Op.ents] ++
     kids.flatMap (fun c => [Op.ckeys c [], Op.croot c] ++
@@ -493,8 +493,8 @@ def stepTS (s : TS β) : Op → TS β × Out
   | .start => startTS s
   | .commit => commitTS B ord s
   | .rollback => rollbackTS s
-  | .snap x y =>
-    (s, .many ((snapReads x y).map (readOp B s) ++
+  | .snap x y sep =>
+    (s, .many ((snapReads x y sep).map (readOp B s) ++
       [.dump (B.entries s.base) (D.kids s.base) (B.hash s.base)]))
   | .bad => (s, .bad)
   | op => (s, readOp B s op)
